@@ -51,7 +51,13 @@ def strategy(draw):
         case["crlf"] = draw(st.booleans())
         # the format allows '#' comment lines and any keyword order in the header: field notes of 0-150 lines
         case["saf_comments"] = dict(n=draw(st.sampled_from([0, 0, 2, 12, 60, 150])), at=draw(st.sampled_from(["top", "middle", "mixed"])),
-                                    shuffle=draw(st.booleans()), seed=draw(gen.seeds32))
+                                    shuffle=draw(st.booleans()), seed=draw(gen.seeds32),
+                                    # converted from a MiniShark recording: the original header kept as comments, tab-separated columns
+                                    shark=draw(gen.chance(4)))
+        if case["assign"][1] == "V" or case["negative"] is not None:
+            # where the SAF reader (documentedly) refuses the file, read_single falls through to the MiniShark reader, which
+            # would accept such a converted file: not a case the property speaks about
+            case["saf_comments"]["shark"] = False
     if fmt == "minishark":
         case["gain"] = draw(st.sampled_from([1, 2, 4, 8, 64]))
         case["conversion"] = draw(st.sampled_from([1, 1000, 32768, 419430]))
@@ -133,6 +139,9 @@ def _emit_saf(path, case, comps, rows_delta=0):
         notes = [f"# field note {i + 1:03d}: " + " ".join(["wind gusts", "traffic on the road", "sensor re-levelled", "battery swapped", "cable checked",
                                                               "site 12 line B", "gain unchanged"][int(j)] for j in g.integers(0, 7, size=3))
                  for i in range(c["n"])]
+        if c.get("shark"):
+            notes = notes + ["# converted from:", "#MiniShark generated file", f"#Sample rate (sps):\t{case['fs']}", f"#Sample number:\t{n + rows_delta}",
+                             "#Gain:\t4", "#Conversion factor:\t32768", "#Channel order:\tV\tN\tE", "#Data:"]
         if c["at"] == "top":
             keys = notes + keys
         elif c["at"] == "middle":
@@ -144,8 +153,9 @@ def _emit_saf(path, case, comps, rows_delta=0):
                 keys.insert(pos, note)
         lines = [first] + keys
     lines.append("####--------------------------------")
+    sep = "\t" if (c and c.get("shark")) else " "
     for i in range(n):
-        lines.append(" ".join(str(int(cols[a][i])) for a in assign))
+        lines.append(sep.join(str(int(cols[a][i])) for a in assign))
     _write_text(path, "\n".join(lines) + "\n", case["crlf"])
 
 
